@@ -4,7 +4,7 @@
 //! contents.  Nothing is interpreted here.
 use crate::util::*;
 use egglog::ArcSort;
-use egglog::sort::SetContainer;
+use egglog::sort::{MapContainer, MultiSetContainer, PairContainer, SetContainer, VecContainer};
 use egglog::{CommandOutput, EGraph, Value};
 use egglog_numeric_id::NumericId;
 use serde_json::{Value as J, json};
@@ -14,11 +14,34 @@ use std::panic::{AssertUnwindSafe, catch_unwind};
 pub struct Dumper<'a> {
     pub eg: &'a EGraph,
     pub canon: BTreeMap<u32, u32>,
+    /// container id -> (kind, raw element values), for every container reachable from a dumped table
+    pub cont: BTreeMap<u32, (u8, Vec<J>)>,
 }
 
 impl<'a> Dumper<'a> {
     pub fn new(eg: &'a EGraph) -> Self {
-        Dumper { eg, canon: BTreeMap::new() }
+        Dumper { eg, canon: BTreeMap::new(), cont: BTreeMap::new() }
+    }
+
+    /// kind (1 Vec, 2 Set, 3 MultiSet, 4 Pair, 5 Map) and raw elements of a container value
+    fn container(&self, v: Value) -> Option<(u8, Vec<Value>)> {
+        use egglog::ContainerValue;
+        if let Some(c) = self.eg.value_to_container::<VecContainer>(v) {
+            return Some((1, c.iter().collect()));
+        }
+        if let Some(c) = self.eg.value_to_container::<SetContainer>(v) {
+            return Some((2, c.iter().collect()));
+        }
+        if let Some(c) = self.eg.value_to_container::<MultiSetContainer>(v) {
+            return Some((3, c.iter().collect()));
+        }
+        if let Some(c) = self.eg.value_to_container::<PairContainer>(v) {
+            return Some((4, c.iter().collect()));
+        }
+        if let Some(c) = self.eg.value_to_container::<MapContainer>(v) {
+            return Some((5, c.iter().collect()));
+        }
+        None
     }
 
     /// One raw value as [tag, payload]; eq-sort ids are recorded in the canonical-id map.
@@ -45,6 +68,18 @@ impl<'a> Dumper<'a> {
                             return Ok(json!([2, xs]));
                         }
                     }
+                    // a container of e-classes (or of containers): raw id + raw contents, recursively
+                    let Some((kind, elems)) = self.container(v) else {
+                        return Err(format!("container value of sort {name} is not readable"));
+                    };
+                    if !self.cont.contains_key(&v.rep()) {
+                        let mut ej = vec![];
+                        for (i, e) in elems.iter().enumerate() {
+                            ej.push(self.val(&inner[i % inner.len()], *e)?);
+                        }
+                        self.cont.insert(v.rep(), (kind, ej));
+                    }
+                    return Ok(json!([3, v.rep()]));
                 }
                 Err(format!("unsupported sort {name}"))
             }
@@ -80,14 +115,15 @@ impl<'a> Dumper<'a> {
     }
 }
 
-pub fn dump(eg: &EGraph, tables: &[String]) -> Result<(J, J), String> {
+pub fn dump(eg: &EGraph, tables: &[String]) -> Result<(J, J, J), String> {
     let mut d = Dumper::new(eg);
     let mut tabs = vec![];
     for t in tables {
         tabs.push(d.table(t)?);
     }
     let canon: Vec<J> = d.canon.iter().map(|(k, v)| json!([k, v])).collect();
-    Ok((J::Array(tabs), J::Array(canon)))
+    let cont: Vec<J> = d.cont.iter().map(|(k, (kind, e))| json!({"id": k, "k": kind, "e": e})).collect();
+    Ok((J::Array(tabs), J::Array(canon), J::Array(cont)))
 }
 
 pub fn new_egraph(mode: &J) -> EGraph {
@@ -210,7 +246,7 @@ pub fn run_session(sess: &J, out: &mut TraceOut) -> Result<(), String> {
         let text = st["text"].as_str().ok_or("text")?;
         let (res, outs, msg) = run_text(&mut slots[slot], text);
         let d = catch_unwind(AssertUnwindSafe(|| dump(&slots[slot], &tables)));
-        let (tabs, canon) = match d {
+        let (tabs, canon, cont) = match d {
             Ok(Ok(x)) => x,
             Ok(Err(e)) => {
                 // the read API refused to show a declared table: this is an observation, not a harness fault
@@ -224,12 +260,13 @@ pub fn run_session(sess: &J, out: &mut TraceOut) -> Result<(), String> {
         };
         let (oj, upd) = outputs_json(&outs);
         let mut ev = json!({"e": "cmd", "i": i, "c": st["c"], "text": text, "res": res, "msg": msg,
-                            "tabs": tabs, "canon": canon, "outs": oj});
+                            "tabs": tabs, "canon": canon, "cont": cont, "outs": oj});
         if slots.len() > 1 {
             ev["slot"] = json!(slot);
-            if let Ok(Ok((ot, oc))) = catch_unwind(AssertUnwindSafe(|| dump(&slots[1 - slot], &tables))) {
+            if let Ok(Ok((ot, oc, ocont))) = catch_unwind(AssertUnwindSafe(|| dump(&slots[1 - slot], &tables))) {
                 ev["otabs"] = ot;
                 ev["ocanon"] = oc;
+                ev["ocont"] = ocont;
             }
         }
         if let Some(u) = upd {
